@@ -309,7 +309,7 @@ func (vc *VC) callWithContract(fr *frame, n *Node, x *ssa.Call, callee *ssa.Func
 	}
 	ctx2 := &SpecCtx{vc: vc, lookup: lk2, st: n.st, oldSt: pre, oldLookup: lk, pkg: callee.Pkg.Pkg, fnName: callee.Name()}
 	for _, en := range fc.Ensures {
-		if strings.Contains(en.Text, "atloop(") {
+		if strings.Contains(en.Text, "atloop(") || strings.Contains(en.Text, "aftercall(") || strings.Contains(en.Text, "callres(") || strings.Contains(en.Text, "atiter(") {
 			// postcondition about an internal program point of the callee: proved of the callee, of no use to callers
 			continue
 		}
@@ -499,24 +499,6 @@ func (vc *VC) execBuiltin(fr *frame, n *Node, x *ssa.Call, b *ssa.Builtin) {
 		vc.bind(n, x, nn)
 	case "delete":
 		mt := args[0].Typ.Underlying().(*types.Map)
-		// inside a range over a map of the same type: the exhaustiveness fact at that loop's exit is sound only if the
-		// deletion hits another map object — an obligation of its own
-		if fr == vc.top {
-			for l := fr.innermostLoop(n.blk); l != nil; l = l.parent {
-				for _, in := range l.header.Instrs {
-					nx, ok := in.(*ssa.Next)
-					if !ok || nx.IsString {
-						continue
-					}
-					rg, _ := nx.Iter.(*ssa.Range)
-					g := vc.rangeGhosts[rg]
-					if g == nil || typeKey(g.mt) != typeKey(mt) {
-						continue
-					}
-					vc.oblige("rangedelete", fmt.Sprintf("rangedelete.b%d", n.blk.Index), "delete inside a range over a map of the same type removes from a different map", vc.pos(x.Pos()), n.reach, not(fmt.Sprintf("(= %s %s)", args[0].T, g.mapT)))
-				}
-			}
-		}
 		vc.mapDelete(st, mt, args[0].T, args[1].T)
 	case "min", "max":
 		t := x.Type()
